@@ -27,6 +27,8 @@ def to_rows(vals):
             rows.append(['str', v[1]] + list(v[2]))
         elif v[0] == 'nn':
             rows.append(['nn', v[1], v[2], v[3]])
+        elif v[0] == 'mfile':
+            rows.append(['mfile', v[1], v[2], v[3], v[4]])
     return rows
 
 
@@ -64,7 +66,7 @@ def run(ctx):
     open(trace, 'w').close()
     env = dict(os.environ, ASAN_OPTIONS='detect_leaks=0:abort_on_error=0:exitcode=97:allocator_may_return_null=1',
                UBSAN_OPTIONS='print_stacktrace=1:halt_on_error=1:exitcode=98')
-    while skip < len(rows) and crashes < 25:
+    while skip < len(rows) and crashes < 60:
         with open(vin) as fin, open(trace, 'a') as fout, open(ctx.path('drv.stderr'), 'w') as ferr:
             p = subprocess.run(['timeout', '900', exe, tmp, str(skip)], stdin=fin, stdout=fout, stderr=ferr, env=env)
         if p.returncode == 0:
@@ -73,7 +75,7 @@ def run(ctx):
         err = open(ctx.path('drv.stderr'), errors='replace').read()
         m = re.findall(r'^@ (\d+) (.*)$', err, re.M)
         last = int(m[-1][0]) if m else skip + 1
-        what = 'timeout' if p.returncode == 124 else ('sanitizer' if p.returncode in (97, 98) or 'Sanitizer' in err or 'runtime error' in err else 'signal')
+        what = 'timeout' if p.returncode == 124 else 'alloc' if re.search(r'allocation-size-too-big|out-of-memory|requested allocation size', err) else ('sanitizer' if p.returncode in (97, 98) or 'Sanitizer' in err or 'runtime error' in err else 'signal')
         detail = ' | '.join(l.strip() for l in err.splitlines() if 'ERROR' in l or 'runtime error' in l or 'SUMMARY' in l)[:500]
         # make sure the trace has exactly one line per executed vector up to the crash, then the crash record
         nlines = sum(1 for _ in open(trace))
